@@ -57,11 +57,23 @@ func (c *BitsCase) Reqs() []Req {
 
 func (c *BitsCase) Judge(rs []Res, env *Env) Outcome {
 	o := Outcome{Cell: c.Cell_}
-	for i := range rs {
+	segsOK := true
+	for i := 1; i < len(rs); i++ {
 		if ok, why := env.accepted(&rs[i]); !ok {
-			o.Status, o.Note = Rejected, why
-			return o
+			segsOK = false
+			o.Note = why
 		}
+	}
+	wholeOK, whyWhole := env.accepted(&rs[0])
+	if !segsOK && !wholeOK {
+		o.Status = Rejected
+		return o
+	}
+	if segsOK != wholeOK {
+		o.Status = Violated
+		o.Viols = []Violation{{Sig: "C17|refusal-depends-on-mode-context",
+			Detail: fmt.Sprintf("every segment assembles alone under its own [BITS]: %v; the whole program assembles: %v (%s %s); program:\n%s", segsOK, wholeOK, o.Note, whyWhole, c.whole())}}
+		return o
 	}
 	var want []byte
 	for i := range c.Segs {
